@@ -70,6 +70,8 @@ Schema(s) ==
          << DSec("t", {"MULTI","TITLE"}, << DInt("x", "5"), DPtr("p") >>) >>
     [] s = 8 -> (* two lists with defaults: interplay of consecutive list assignments *)
          << DIntList("la", <<"1","2">>), DStrList("lb", <<"x">>) >>
+    [] s = 16 -> (* deprecated options next to ordinary ones at the top level *)
+         << WithFlags(DInt("dep", "1"), {"DEPRECATED"}), WithFlags(DInt("old", "1"), {"DEPRECATED","DROP"}), DInt("i", "7") >>
     [] s = 15 -> (* declared sections inside a free-form section: they are free-form too *)
          << DSec("kv", {"KEYSTRVAL"}, << DSec("in", {}, << DInt("x", "5") >>),
                                          DSec("g", {"MULTI","TITLE"}, <<>>) >>) >>
@@ -96,6 +98,7 @@ ValuePool(s) ==
     [] s = 12 -> {"1"}
     [] s = 14 -> {"1", "x", "true"}
     [] s = 15 -> {"1"}
+    [] s = 16 -> {"1"}
 TitlePool(s) == IF s \in {2, 3, 4} THEN (IF Mode \in {"ignore", "ignorecmt"} THEN {"a"} ELSE {"a", "b"})
                 ELSE IF s = 7 THEN {"a", "A"} ELSE IF s \in {9, 15} THEN {"a"} ELSE {}
 
@@ -107,7 +110,9 @@ Punct == {"=", "+=", "{", "}", "(", ")", ","}
 NamesHere == LET f == Top(ps) IN {f.sec.opts[i].name : i \in 1..Len(f.sec.opts)}
 
 StrTokens ==
-  {TkStr(v) : v \in NamesHere \cup {"zz"} \cup ValuePool(sid) \cup TitlePool(sid)}
+  {TkStr(v) : v \in NamesHere \cup {"zz"} \cup ValuePool(sid) \cup TitlePool(sid)
+                   (* an undeclared name that looks like a path into a section that does not exist *)
+                   \cup (IF sid = 16 THEN {"zz|x"} ELSE {})}
 
 (* line breaks: at most NlBudget newlines per text keeps the space finite *)
 NlBudget == 2
@@ -136,6 +141,7 @@ Expected(p) ==
   [status |-> p.status,
    obs    |-> ObsSec(RootOf(p)),
    ndiag  |-> IF p.depr THEN AnyV ELSE IF p.diags = <<>> THEN "0" ELSE "some",
+   ndep   |-> p.ndep,          \* deprecation notices: the only diagnostics of an accepted text
    diag1  |-> IF p.diags = <<>> THEN [file |-> Null, line |-> 0] ELSE p.diags[1],
    cblog  |-> p.cblog,
    freed  |-> p.freed]
